@@ -26,6 +26,10 @@
             (rt)->video[s].source.camera->state == DeviceState_Running, ag.live[s][0]) &&     \
      IMPL((rt)->video[s].sink.storage != 0 &&                                                 \
             (rt)->video[s].sink.storage->state == DeviceState_Running, ag.live[s][2]) &&      \
+     /* while a source body runs nobody else has raised its filter's or sink's stop flag:   */ \
+     /* those flags mean "the source has committed its last frame" (rely of sink.thread)    */ \
+     IMPL(ag.live[s][0] && (rt)->video[s].source.is_running,                                  \
+          !(rt)->video[s].filter.is_stopping && !(rt)->video[s].sink.is_stopping) &&          \
      /* a filter or sink worker without a source worker has been told to stop */             \
      IMPL(ag.live[s][1] && !ag.live[s][0], (rt)->video[s].filter.is_stopping) &&              \
      IMPL(ag.live[s][2] && !ag.live[s][0], (rt)->video[s].sink.is_stopping) &&                \
@@ -217,8 +221,8 @@ static int g_mon_state0;
 enum AcquireStatusCode
 stub_acquire_abort(struct AcquireRuntime* self_)
 {
-    VASSERT(self_ == &g_rt->handle && RI(g_rt) && NO_LEAK(g_rt),
-            "[C08.callsite-invariant] acquire_abort is called on a runtime that satisfies the invariant");
+    VASSERT(self_ == &g_rt->handle && (ag.closed_under_worker || (RI(g_rt) && NO_LEAK(g_rt))),
+            "[C08.callsite-invariant] acquire_abort is called on a runtime that satisfies the invariant (unless a device was closed under a live worker, which is reported by its own obligation)");
     for (int s = 0; s < 2; ++s) {
         if (!VALID(g_rt, s))
             continue;
